@@ -190,6 +190,20 @@ def record_sites(ctx, fx, fid, struct_path, payload_field, tag_fields, rule="R-T
     record is built in `fid` - split by the outcome of the conditions that select its operands, so that
     `if c { a } else { b }` fields are correlated - a payload that is the caller's bytes unchanged (kind I) goes with
     constant flags, the same at every such place, and no transformed payload (kind T) is filed under those flags."""
+    if "/" in fid:
+        # a file: every function in it that builds the record from a byte-slice parameter is a site holder
+        # (the construction may have been moved out of `put` into a helper)
+        n = 0
+        for f2 in fx.fn_ids(fid):
+            if "::tests::" in f2 or "{closure" in f2:
+                continue
+            f2n = Fn(fx.raw(f2))
+            if not any(f2n.ty(l) in ("&[u8]", "&'{erased} [u8]") for l in range(1, f2n.nargs + 1)):
+                continue
+            if any(st[0] == "a" and st[2][0] == "agg" and isinstance(st[2][1], str) and st[2][1].startswith("adt:" + struct_path + "::")
+                   for loc, st in f2n.iter_locs()):
+                n += record_sites(ctx, fx, f2, struct_path, payload_field, tag_fields, rule)
+        return n
     fn = Fn(fx.raw(fid))
     adt = fx.adts.get(struct_path)
     names = [f[0] for f in adt["variants"][0]["fields"]]
